@@ -168,6 +168,7 @@ type atAnalysis struct {
 	startFns map[string]bool
 	lifeFns  map[string]bool
 	litCount map[string]int
+	freshRet map[string]bool // functions whose first result is always nil or an object freshly built inside them
 }
 
 func recvStruct(fd *ast.FuncDecl) string {
@@ -648,32 +649,7 @@ func (a *atAnalysis) trackFresh(as *ast.AssignStmt, c *walkCtx) {
 	if !ok || id.Name == "_" {
 		return
 	}
-	r := as.Rhs[0]
-	fresh := false
-	if u, ok := r.(*ast.UnaryExpr); ok && u.Op == token.AND {
-		r = u.X
-	}
-	switch y := r.(type) {
-	case *ast.CompositeLit:
-		if tid, ok := y.Type.(*ast.Ident); ok && a.targets[tid.Name] {
-			fresh = true
-		}
-	case *ast.CallExpr:
-		if fid, ok := y.Fun.(*ast.Ident); ok {
-			if fid.Name == "new" && len(y.Args) == 1 {
-				if tid, ok := y.Args[0].(*ast.Ident); ok && a.targets[tid.Name] {
-					fresh = true
-				}
-			} else if strings.HasPrefix(strings.ToLower(fid.Name), "new") {
-				if fd, ok := a.funcs[fid.Name]; ok && fd.Type.Results != nil && len(fd.Type.Results.List) > 0 {
-					rt := strings.TrimPrefix(nodeText(a.p, fd.Type.Results.List[0].Type), "*")
-					if a.targets[rt] {
-						fresh = true
-					}
-				}
-			}
-		}
-	}
+	fresh := a.freshExpr(as.Rhs[0])
 	if fresh {
 		if _, seen := c.locals[id.Name]; !seen {
 			until := firstSpawn(c.decl, a)
@@ -681,6 +657,119 @@ func (a *atAnalysis) trackFresh(as *ast.AssignStmt, c *walkCtx) {
 				until = e
 			}
 			c.locals[id.Name] = until
+		}
+	}
+}
+
+// freshExpr: the expression builds a new object of a target struct: &S{..}, S{..}, new(S), a call of
+// an in-package New*/new* function returning (a pointer to) a target struct, or a call of a function
+// known to return only objects it has freshly built (freshRet).
+func (a *atAnalysis) freshExpr(r ast.Expr) bool {
+	if u, ok := r.(*ast.UnaryExpr); ok && u.Op == token.AND {
+		r = u.X
+	}
+	switch y := r.(type) {
+	case *ast.CompositeLit:
+		if tid, ok := y.Type.(*ast.Ident); ok && a.targets[tid.Name] {
+			return true
+		}
+	case *ast.CallExpr:
+		if fid, ok := y.Fun.(*ast.Ident); ok {
+			if fid.Name == "new" && len(y.Args) == 1 {
+				if tid, ok := y.Args[0].(*ast.Ident); ok && a.targets[tid.Name] {
+					return true
+				}
+			} else if strings.HasPrefix(strings.ToLower(fid.Name), "new") {
+				if fd, ok := a.funcs[fid.Name]; ok && a.firstResultIsTarget(fd) {
+					return true
+				}
+			}
+		}
+		if n, _ := a.calleeName(y); n != "" && a.freshRet[n] {
+			return true
+		}
+	}
+	return false
+}
+
+func (a *atAnalysis) firstResultIsTarget(fd *ast.FuncDecl) bool {
+	if fd.Type.Results == nil || len(fd.Type.Results.List) == 0 {
+		return false
+	}
+	rt := strings.TrimPrefix(nodeText(a.p, fd.Type.Results.List[0].Type), "*")
+	return a.targets[rt]
+}
+
+// computeFreshRet finds the functions that only ever return nil or a local that was :=-bound to a
+// fresh object inside them (e.g. fileConfig.reloadAndStore returning the config it has just built).
+func (a *atAnalysis) computeFreshRet() {
+	a.freshRet = map[string]bool{}
+	for round := 0; round < 4; round++ {
+		changed := false
+		for n, fd := range a.funcs {
+			if a.freshRet[n] || !a.firstResultIsTarget(fd) {
+				continue
+			}
+			freshVars := map[string]bool{}
+			reassigned := map[string]bool{}
+			ast.Inspect(fd.Body, func(nd ast.Node) bool {
+				if _, isLit := nd.(*ast.FuncLit); isLit {
+					return false
+				}
+				as, ok := nd.(*ast.AssignStmt)
+				if !ok || len(as.Lhs) == 0 || len(as.Rhs) == 0 {
+					return true
+				}
+				id, ok := as.Lhs[0].(*ast.Ident)
+				if !ok {
+					return true
+				}
+				if as.Tok == token.DEFINE && a.freshExpr(as.Rhs[0]) && !freshVars[id.Name] {
+					freshVars[id.Name] = true
+				} else if freshVars[id.Name] {
+					reassigned[id.Name] = true
+				}
+				return true
+			})
+			ok, any := true, false
+			ast.Inspect(fd.Body, func(nd ast.Node) bool {
+				if _, isLit := nd.(*ast.FuncLit); isLit {
+					return false
+				}
+				rs, isRet := nd.(*ast.ReturnStmt)
+				if !isRet {
+					return true
+				}
+				if len(rs.Results) == 0 {
+					ok = false // named results: not analysed
+					return true
+				}
+				switch x := rs.Results[0].(type) {
+				case *ast.Ident:
+					if x.Name == "nil" {
+						return true
+					}
+					if freshVars[x.Name] && !reassigned[x.Name] {
+						any = true
+						return true
+					}
+					ok = false
+				default:
+					if a.freshExpr(rs.Results[0]) {
+						any = true
+					} else {
+						ok = false
+					}
+				}
+				return true
+			})
+			if ok && any {
+				a.freshRet[n] = true
+				changed = true
+			}
+		}
+		if !changed {
+			break
 		}
 	}
 }
@@ -953,6 +1042,7 @@ func accessTable(it Item) (string, error) {
 			a.lifeFns[n] = true
 		}
 	}
+	a.computeFreshRet()
 	// walk
 	for _, n := range names {
 		fd := a.funcs[n]
@@ -1072,6 +1162,23 @@ func accessTable(it Item) (string, error) {
 			}
 		}
 	}
+	recvNameOf := func(fn string) string {
+		fd := a.funcs[fn]
+		if fd != nil && fd.Recv != nil && len(fd.Recv.List) > 0 && len(fd.Recv.List[0].Names) > 0 {
+			return fd.Recv.List[0].Names[0].Name
+		}
+		return ""
+	}
+	isEntry := func(n string) bool {
+		base := n
+		if i := strings.Index(n, "."); i >= 0 {
+			base = n[i+1:]
+		}
+		if a.valueUse[n] || len(a.goRoots[n]) > 0 || a.lifeFns[n] || !hasCaller[n] {
+			return true
+		}
+		return ast.IsExported(base) && (extNames[base] || wellKnownEntry[base])
+	}
 	// helper functions executed only inside a Start segment (e.g. registerMetrics) --------------
 	helperSeg := map[string]int{}   // function -> segment
 	helperOf := map[string]string{} // function -> its Start function
@@ -1080,8 +1187,7 @@ func accessTable(it Item) (string, error) {
 			if a.startFns[n] || a.lifeFns[n] || a.valueUse[n] || len(a.goRoots[n]) > 0 || !strings.Contains(n, ".") {
 				continue
 			}
-			base := n[strings.Index(n, ".")+1:]
-			if ast.IsExported(base) {
+			if isEntry(n) {
 				continue
 			}
 			seg, owner, ok, any := 0, "", true, false
@@ -1249,6 +1355,56 @@ func accessTable(it Item) (string, error) {
 			finalFrom[n] = pos
 		}
 	}
+	// locks inherited from the callers: an internal helper that is only ever called (directly, on the
+	// caller's own receiver) while the receiver's lock m is held runs with m held
+	inherit := map[string]map[string]bool{} // function -> lock field -> exclusive
+	for round := 0; round < 4; round++ {
+		for _, n := range names {
+			if !strings.Contains(n, ".") || isEntry(n) {
+				continue
+			}
+			var acc map[string]bool
+			ok := true
+			for _, cs := range a.calls {
+				if cs.callee != n {
+					continue
+				}
+				if cs.inClosure || cs.forceRole != "" || cs.recvText == "" || cs.recvText != recvNameOf(cs.caller) ||
+					recvStruct(a.funcs[cs.caller]) != recvStruct(a.funcs[n]) {
+					ok = false
+					break
+				}
+				here := map[string]bool{}
+				for k, x := range cs.held {
+					parts := strings.SplitN(k, "\x00", 2)
+					if parts[0] == cs.recvText {
+						here[parts[1]] = x
+					}
+				}
+				for m, x := range inherit[cs.caller] {
+					if old, has := here[m]; !has || (x && !old) {
+						here[m] = x
+					}
+				}
+				if acc == nil {
+					acc = here
+				} else {
+					for m, x := range acc {
+						if y, has := here[m]; !has {
+							delete(acc, m)
+						} else {
+							acc[m] = x && y
+						}
+					}
+				}
+			}
+			if ok && len(acc) > 0 {
+				inherit[n] = acc
+			} else {
+				delete(inherit, n)
+			}
+		}
+	}
 	// rows ------------------------------------------------------------------------------------
 	var rows []atSite
 	for _, ac := range a.accesses {
@@ -1265,6 +1421,20 @@ func accessTable(it Item) (string, error) {
 		}
 		sort.Strings(roles)
 		row := atSite{st: ac.st, field: ac.field, fn: ac.fn, kind: ac.kind, locks: ac.locks, roles: roles}
+		if inh := inherit[ac.fn]; len(inh) > 0 && !ac.inClosure && ac.forceRole == "" && ac.base == recvNameOf(ac.fn) {
+			have := map[string]bool{}
+			for _, l := range row.locks {
+				have[strings.SplitN(l, "\x00", 2)[0]] = true
+			}
+			merged := append([]string{}, row.locks...)
+			for m, x := range inh {
+				if !have[m] {
+					merged = append(merged, fmt.Sprintf("%s\x00%v", m, x))
+				}
+			}
+			sort.Strings(merged)
+			row.locks = merged
+		}
 		recvName := ""
 		if ac.decl.Recv != nil && len(ac.decl.Recv.List) > 0 && len(ac.decl.Recv.List[0].Names) > 0 {
 			recvName = ac.decl.Recv.List[0].Names[0].Name
